@@ -1,5 +1,6 @@
 mod core;
 mod exact;
+mod linsem;
 mod lm;
 mod props;
 mod refsem;
@@ -50,7 +51,7 @@ fn main() {
     }
     let level = match id.as_str() {
         "C14" => "model_checking",
-        "C15" => "fault_enumeration",
+        "C15" | "C07" => "fault_enumeration",
         _ => "exploration",
     };
     let mut run = Run::new(&id, &tier, level);
@@ -68,7 +69,11 @@ fn main() {
         run.replay = Some((fam, idx));
     }
     match id.as_str() {
+        "C01" => props::c01::run(run),
+        "C02" => props::c02::run(run),
         "C04" | "C05" => props::c04_c05::run(&id, run),
+        "C07" => props::c07::run(run),
+        "C08" => props::c08::run(run),
         "C09" => props::c09::run(run),
         "C10" => props::c10::run(run),
         "C11" => props::c11::run(run),
